@@ -21,11 +21,11 @@ class Drained(Exception):
     """Raised by the recording transport when the inbox is empty (harness sentinel)."""
 
 
-class RecordingTransport(Transport):
-    """In-memory transport: an inbox of lines, a log of writes, optional write faults."""
+class _Recording:
+    """What every harness transport records and which write faults it can inject (mixed into the plain, MQTT and stream kinds)."""
 
-    def __init__(self) -> None:
-        self.inbox: list[str] = []
+    def _init_recording(self) -> None:
+        self.inbox: list = []
         self.step = 0
         self.writes: list[tuple[int, str]] = []  # successful writes (step, line)
         self.attempts: list[tuple[int, str, bool]] = []  # every attempt (step, line, failed)
@@ -39,23 +39,13 @@ class RecordingTransport(Transport):
         self.connected = 0
         self.disconnected = 0
 
-    async def connect(self) -> None:
-        self.connected += 1
-
-    async def disconnect(self) -> None:
-        self.disconnected += 1
-
-    async def read(self) -> str:
-        if not self.inbox:
-            raise Drained
-        item = self.inbox.pop(0)
-        if isinstance(item, BaseException):
-            raise item  # an injected read failure (line noise, a lost link)
-        return item
-
-    async def write(self, decoded_message: str) -> None:
+    async def _record_write(self, decoded_message: str) -> None:
         if self.delay:
-            await asyncio.sleep(self.delay)
+            self.delaying = getattr(self, "delaying", 0) + 1  # (someone is inside a slow write right now)
+            try:
+                await asyncio.sleep(self.delay)
+            finally:
+                self.delaying -= 1
         idx = len(self.attempts)
         if self.hang_pred is not None and self.hang_pred(decoded_message):
             self.attempts.append((self.step, decoded_message, True))
@@ -78,6 +68,153 @@ class RecordingTransport(Transport):
         return [line for stp, line in self.writes if stp == step]
 
 
+class RecordingTransport(_Recording, Transport):
+    """In-memory transport: an inbox of lines, a log of writes, optional write faults."""
+
+    def __init__(self) -> None:
+        self._init_recording()
+
+    async def connect(self) -> None:
+        self.connected += 1
+
+    async def disconnect(self) -> None:
+        self.disconnected += 1
+
+    async def read(self) -> str:
+        if not self.inbox:
+            raise Drained
+        item = self.inbox.pop(0)
+        if isinstance(item, BaseException):
+            raise item  # an injected read failure (line noise, a lost link)
+        return item
+
+    async def write(self, decoded_message: str) -> None:
+        await self._record_write(decoded_message)
+
+
+def line_to_publication(line: str) -> tuple[str, str] | None:
+    """(topic levels joined by '/', payload) of a line a broker could deliver, or None when no publication spells it."""
+    body = line[:-1] if line.endswith("\n") else line
+    parts = body.split(";", 5)
+    if len(parts) != 6:
+        return None
+    for level in parts[:5]:
+        if any(ch in level for ch in "/#+\x00") or level.startswith("$"):
+            return None
+    return "/".join(parts[:5]), parts[5]
+
+
+def _mqtt_recording_class():
+    from aiomysensors.transport.mqtt import MQTTTransport
+
+    class MqttRecordingTransport(_Recording, MQTTTransport):
+        """The library's MQTT transport on a harness-owned broker: a received line arrives as the publication that spells
+        it (topic `<in-prefix>/n/c/cmd/ack/type`, payload), a write is recorded as the line its publication spells."""
+
+        def __init__(self) -> None:
+            MQTTTransport.__init__(self, in_prefix="vf/gw-out", out_prefix="vf/gw-in")
+            self._init_recording()
+            self.subscriptions: list = []
+
+        async def _connect(self) -> None:
+            self.connected += 1
+
+        async def _disconnect(self) -> None:
+            self.disconnected += 1
+
+        async def _subscribe(self, topic: str, qos: int) -> None:
+            self.subscriptions.append((topic, qos))
+
+        async def _publish(self, topic: str, payload: str, qos: int) -> None:
+            prefix = self.out_prefix + "/"
+            levels = topic[len(prefix):].split("/") if topic.startswith(prefix) else ["<topic outside the out-prefix: %s>" % topic]
+            await self._record_write(";".join(levels) + ";" + payload + "\n")
+
+        async def read(self) -> str:
+            if not self.inbox:
+                raise Drained
+            item = self.inbox.pop(0)
+            if isinstance(item, BaseException):
+                self._receive_error(item)  # type: ignore[arg-type]
+                return await MQTTTransport.read(self)
+            publication = line_to_publication(item) if isinstance(item, str) else None
+            if publication is None:
+                return item  # (nothing a broker could deliver: handed over as it is)
+            self._receive(f"{self.in_prefix}/{publication[0]}", publication[1])
+            if self._incoming_messages.empty():
+                raise Drained  # the publication was delivered to the transport and nothing can be read: it was swallowed
+            return await MQTTTransport.read(self)
+
+    return MqttRecordingTransport
+
+
+def _stream_recording_class():
+    from aiomysensors.transport import StreamTransport
+
+    class StreamRecordingTransport(_Recording, StreamTransport):
+        """The library's stream transport on in-memory asyncio streams: a received line arrives as its UTF-8 bytes,
+        a write is recorded as the text of the bytes that reached the connection."""
+
+        def __init__(self) -> None:
+            StreamTransport.__init__(self)
+            self._init_recording()
+            self.mem = None
+
+        async def _open_connection(self):
+            reader, writer, self.mem = mem_stream_pair(1 << 20)
+            return reader, writer
+
+        async def connect(self) -> None:
+            self.connected += 1
+            await StreamTransport.connect(self)
+
+        async def disconnect(self) -> None:
+            self.disconnected += 1
+            await StreamTransport.disconnect(self)
+
+        async def _ensure(self) -> None:
+            if self.reader is None or self.mem is None or self.mem.closing:
+                await StreamTransport.connect(self)
+
+        async def read(self) -> str:
+            if not self.inbox:
+                raise Drained
+            item = self.inbox.pop(0)
+            if isinstance(item, BaseException):
+                raise item
+            try:
+                data = item.encode("utf-8")
+            except (UnicodeEncodeError, AttributeError):
+                return item  # (not the text of any byte string: handed over as it is)
+            if not item.endswith("\n") or "\n" in item[:-1]:
+                return item  # (not one line of a stream)
+            await self._ensure()
+            self.reader.feed_data(data)
+            return await StreamTransport.read(self)
+
+        async def write(self, decoded_message: str) -> None:
+            await self._ensure()
+            before = len(self.mem.chunks)
+            await StreamTransport.write(self, decoded_message)
+            sent = b"".join(bytes(chunk) for chunk in self.mem.chunks[before:])
+            await self._record_write(sent.decode("utf-8", "backslashreplace"))
+
+    return StreamRecordingTransport
+
+
+VIA_KINDS = ("plain", "mqtt", "stream")
+
+
+def make_transport(via: str | None):
+    if via in (None, "plain"):
+        return RecordingTransport()
+    if via == "mqtt":
+        return _mqtt_recording_class()()
+    if via == "stream":
+        return _stream_recording_class()()
+    raise ValueError(via)
+
+
 class strict_warnings:
     """Run a block the way `python -W error` / pytest's `filterwarnings = error` would: a warning issued from the library is an exception."""
 
@@ -91,7 +228,8 @@ class strict_warnings:
 
             self.ctx = warnings.catch_warnings()
             self.ctx.__enter__()
-            warnings.filterwarnings("error", module=r"aiomysensors(\..*)?")
+            warnings.simplefilter("error")  # every warning, whoever issues it on the library's behalf (its dependencies warn about how they are called)
+            warnings.simplefilter("ignore", ResourceWarning)
         return self
 
     def __exit__(self, *exc) -> None:
@@ -210,9 +348,10 @@ def read_error(kind: str) -> BaseException:
 UNWRITABLE_FILE = "/nonexistent-directory-for-vf/registry.json"
 
 
-def make_gateway(version: str | None, *, metric: bool = True, transport: Transport | None = None, ctx: str | None = None, persistence_file: str | None = None) -> tuple[Gateway, Any]:
-    """persistence_file: None, a path, or "unwritable" (a location that cannot be written: every save fails with PersistenceWriteError)."""
-    transport = transport or RecordingTransport()
+def make_gateway(version: str | None, *, metric: bool = True, transport: Transport | None = None, ctx: str | None = None, persistence_file: str | None = None, via: str | None = None) -> tuple[Gateway, Any]:
+    """persistence_file: None, a path, or "unwritable" (a location that cannot be written: every save fails with PersistenceWriteError).
+    via: which kind of transport carries the lines (plain fake, the library's MQTT transport, the library's stream transport)."""
+    transport = transport or make_transport(via)
     if persistence_file == "unwritable":
         persistence_file = UNWRITABLE_FILE
 
